@@ -1,16 +1,19 @@
 #!/bin/sh
-# usage: try_mutant.sh <patch> <prop> [<prop>...]   (applies to /repo, runs quick checks, reverts)
+# usage: try_mutant.sh <patch> <prop> [<prop>...]   (applies to /repo, runs checks, reverts)
 patch=$1; shift
 cd /repo || exit 2
-if ! git apply --check "$patch" 2>/dev/null; then
-  if ! git apply --3way --check "$patch" 2>/dev/null; then echo "PATCH-DOES-NOT-APPLY $patch"; exit 3; fi
-  git apply --3way "$patch" >/dev/null 2>&1; git reset -q
-else
+if git apply --check "$patch" 2>/dev/null; then
   git apply "$patch"
+else
+  git apply --3way "$patch" >/dev/null 2>&1
+  git reset -q
+  if grep -rl '^<<<<<<< ' ml_pipeline_engine ml_pipeline_viewer >/dev/null 2>&1 || [ -z "$(git status --short)" ]; then
+    git checkout -q -- .; echo "PATCH-DOES-NOT-APPLY $patch"; exit 3
+  fi
 fi
 cd /verif
 for p in "$@"; do
   ./check "$p" --tier ${TIER:-quick} 2>&1 | grep -v "^KNOWN" | cut -c1-200 | tail -${TAILN:-3}
 done
-cd /repo && git checkout -q -- . && git clean -fdq -e '*.pyc' >/dev/null 2>&1
+cd /repo && git checkout -q -- . && git clean -fdq >/dev/null 2>&1
 git status --short | head -3
